@@ -74,7 +74,7 @@ def make_fn(sig, log, ctx_mode, inj, is_method=False, is_async=False, nullable=F
     if inj:
         if not star:
             parts.append('*')
-        parts.append('inj: Annotated[str, Inject] = "INJ"' if inj == 'annotated' else 'inj: str = "INJ"')
+        parts.append('inj: Annotated[str, Inject] = "INJ"' if inj == 'annotated' else ('inj: str = None' if inj == 'none-default' else 'inj: str = "INJ"'))
     names = [NAMES[i] for i in range(len(sig))] + (['request'] if ctx_mode == 'positional-misnamed' else [])
     src = '%sdef f(%s):\n    _log.append(dict(%s))\n    return 1\n' % (
         'async ' if is_async else '', ', '.join(parts), ', '.join('%s=%s' % (n, n) for n in names))
@@ -86,6 +86,31 @@ def make_fn(sig, log, ctx_mode, inj, is_method=False, is_async=False, nullable=F
 
 
 _LONG_LIVED = {}
+
+
+def paginated(f, log):
+    """a functools.wraps decorator that adds an optional keyword parameter and publishes it through __signature__"""
+    import functools
+    import inspect
+    sig = inspect.signature(f)
+    params = list(sig.parameters.values())
+    extra = inspect.Parameter('limit', inspect.Parameter.KEYWORD_ONLY, default=10, annotation=int)
+    idx = len([p for p in params if p.kind != inspect.Parameter.VAR_KEYWORD])
+    new_sig = sig.replace(parameters=params[:idx] + [extra] + params[idx:])
+    if inspect.iscoroutinefunction(f):
+        @functools.wraps(f)
+        async def w(*args, limit=10, **kwargs):
+            r = await f(*args, **kwargs)
+            log[-1]['limit'] = limit
+            return r
+    else:
+        @functools.wraps(f)
+        def w(*args, limit=10, **kwargs):
+            r = f(*args, **kwargs)
+            log[-1]['limit'] = limit
+            return r
+    w.__signature__ = new_sig
+    return w
 
 
 def resolve(doc, schema, depth=0):
@@ -123,14 +148,23 @@ def gen_cases(ctx):
         for ctx_mode in ('none', 'name', 'positional', 'positional-misnamed'):
             if ctx_mode == 'positional-misnamed' and (len(sig) > 2 or any(k == 'pk' and d for k, d in sig)):
                 continue
-            for inj in (False, True, 'annotated'):
-                for flavour in ('function', 'view', 'view-static', 'view-class'):
+            for inj in (False, True, 'annotated', 'none-default'):
+                for flavour in ('function', 'view', 'view-static', 'view-class', 'function-wrapped', 'function-late'):
+                    if inj == 'none-default' and (flavour != 'function' or len(sig) > 3):
+                        continue
+                    if flavour in ('function-wrapped', 'function-late') and (len(sig) > 3 or ctx_mode not in ('none', 'name') or inj == 'annotated' or (flavour == 'function-late' and not inj)):
+                        continue
                     if flavour.startswith('view') and ctx_mode != 'none':
                         continue      # views take the context through their constructor
                     if flavour in ('view-static', 'view-class') and (inj or len(sig) > 3):
                         continue
                     for validator in ('base', 'pydantic', 'pydantic-extra-ignore'):
                         if validator != 'base' and (flavour.startswith('view') or len(sig) > 3 or ctx_mode == 'positional-misnamed'):
+                            continue
+                        if flavour in ('function-wrapped', 'function-late') and validator == 'pydantic-extra-ignore':
+                            continue
+                        if flavour in ('function-wrapped', 'function-late'):
+                            yield dict(sig=sig, ctx=ctx_mode, inj=inj, flavour=flavour, validator=validator)
                             continue
                         yield dict(sig=sig, ctx=ctx_mode, inj=inj, flavour=flavour, validator=validator)
                         if sig and validator != 'pydantic-extra-ignore' and len(sig) <= 3:
@@ -207,8 +241,15 @@ def _run_case(case, rec):
     truth_names = sorted(names)
     truth_required = sorted([NAMES[i] for i, (k, d) in enumerate(sig) if not d] + (['request'] if ctx_mode == 'positional-misnamed' else []))
     ckw = {} if case.get('nocontext') else dict(context='CTX')
+    if flavour == 'function-wrapped':
+        # the handler is a functools.wraps wrapper with a __signature__ of its own that adds an optional parameter `limit`
+        names = names + ['limit']
+        truth_names = sorted(names)
     if inj == 'annotated':
         pred = (lambda name, ann, default: Inject in getattr(ann, '__metadata__', ()))
+    elif inj == 'none-default':
+        # "injected arguments default to None": parameters WITHOUT a default are not excluded (their default is the `empty` sentinel)
+        pred = (lambda name, ann, default: default is None)
     else:
         pred = (lambda name, ann, default: name == 'inj')
     vkind = case.get('validator', 'base')
@@ -247,14 +288,24 @@ def _run_case(case, rec):
             d.registry.view(V, context='context')
         else:
             fn, src = make_fn(sig, log, ctx_mode, inj, is_async=(disp == 'async'), nullable=bool(case.get('nullable')), fielddef=bool(case.get('fielddef')), NAMES=NAMES)
-            if validator:
-                fn = validator.validate(fn)
+            if flavour == 'function-wrapped':
+                fn = paginated(fn, log)
             kw = {}
             if ctx_mode == 'name':
                 kw = dict(context='ctx')
             elif ctx_mode in ('positional', 'positional-misnamed'):
                 kw = dict(context='ctx', positional=True)
-            d.add(fn, name='f', **kw)
+            if flavour == 'function-late':
+                # registered on a registry FIRST, marked for validation afterwards (the decorators the other way round), then merged
+                reg = pjrpc.server.MethodRegistry()
+                reg.add(fn, name='f', **kw)
+                if validator:
+                    validator.validate(fn)
+                d.add_methods(reg)
+            else:
+                if validator:
+                    fn = validator.validate(fn)
+                d.add(fn, name='f', **kw)
         methods = list(d.registry.values())
         ext_kw = dict(exclude_param=pred) if inj else {}
         docs = {}
